@@ -147,6 +147,8 @@ func CheckTokenTotalSupply(g *GenesisConfig) error {
 			return errors.Errorf("token %v declared but not given at all", token)
 		} else if token.TotalSupply.Cmp(total) != 0 {
 			return errors.Errorf("invalid token total balance for %v Expected %v but got %v", token, total, token.TotalSupply)
+		} else if token.MaxSupply == nil || token.MaxSupply.Cmp(token.TotalSupply) < 0 {
+			return errors.Errorf("invalid token max supply for %v Total supply %v exceeds max supply %v", token, token.TotalSupply, token.MaxSupply)
 		}
 	}
 
